@@ -28,6 +28,10 @@ macro_rules! with_n {
                 const $N: usize = 3;
                 $body
             }
+            7 => {
+                const $N: usize = 7;
+                $body
+            }
             16 => {
                 const $N: usize = 16;
                 $body
